@@ -12,7 +12,7 @@ import ast
 
 from ..astutil import body_walk, call_name, call_recv, calls_in, fstring_parts, merge_consts, names_in, norm, strip_await, walk_no_nested
 from ..shape import NO, TOP, YES, Shapes, paren_balance, quoted_holes
-from .common import env_of, parmap, typer, where
+from .common import env_of, is_push_call, parmap, typer, where
 
 PROP = "C07"
 EXPLANATION = (
@@ -399,6 +399,35 @@ def r7_4(ctx):
     ctx.floor("R7.4", sites, 5, "one-line response holes fed by exception / raw text")
 
 
+def r7_4b(ctx):
+    """`qstr()` is interpolated raw into client-facing one-line responses (the time-out BAD).  That is sound only while it is
+    built from the tag (an atom), the command word (an enum member) and the UID marker - nothing a client can put a CR or LF
+    into.  Any other attribute of the command object (a mailbox name, a search string: possibly given as a literal) in it is
+    response splitting waiting for the one reply that is not passed through oneline()."""
+    p = ctx.p
+    fi = p.func("parse.IMAPClientCommand.qstr")
+    ctx.analysed(fi)
+    allowed = {"tag", "command", "uid_command"}
+    reads = set()
+    for n in ast.walk(fi.node):
+        if isinstance(n, ast.Attribute) and isinstance(n.value, ast.Name) and n.value.id == "self":
+            reads.add(n.attr)
+        elif isinstance(n, ast.Call) and isinstance(n.func, ast.Name) and n.func.id in ("getattr", "vars", "str", "repr") and n.args and isinstance(n.args[0], ast.Name) and n.args[0].id == "self":
+            reads.add(norm(n, 40) if n.func.id != "getattr" or len(n.args) < 2 or not isinstance(n.args[1], ast.Constant) else str(n.args[1].value))
+    users = []
+    for f2 in p.functions.values():
+        for js in [x for x in ast.walk(f2.node) if isinstance(x, ast.JoinedStr)]:
+            consts = "".join(x for x in merge_consts(fstring_parts(js)) if isinstance(x, str))
+            if any(k in consts for k in (" BAD ", " NO ", " OK ", "* BYE")) and any(isinstance(c, ast.Call) and call_name(c) == "qstr" for c in ast.walk(js)):
+                users.append(js)
+    ctx.floor("R7.4b", len(users), 1, "response lines that interpolate qstr()")
+    extra = sorted(reads - allowed)
+    if extra and users:
+        ctx.bad("R7.4", fi.module, fi.qual, f"qstr() reads self.{extra[0]}", f"qstr() now includes `{extra[0]}` of the command, and qstr() is interpolated raw into a tagged reply ({len(users)} push site(s), e.g. the time-out BAD): a value given as a literal can carry CR/LF into the response line", fi.node.lineno)
+    else:
+        ctx.ok("R7.4", where(fi), f"qstr() is built from tag / command word / UID marker only ({len(users)} client-facing use(s))")
+
+
 def _is_command_object(p, fi, h) -> bool:
     """`{cmd}` / `{str(cmd)}` where cmd is an IMAPClientCommand (annotation-based typing)."""
     e = h
@@ -518,7 +547,12 @@ def _incremental_line(tgt, fi):
     return total == 0
 
 
+def _run_extra(ctx):
+    ctx.do(r7_4b)
+
+
 def run(ctx):
+    _run_extra(ctx)
     ctx.do(r7_1)
     ctx.do(r7_2)
     ctx.do(r7_3)
